@@ -259,7 +259,10 @@ def analysis_history_cases(run):
     n = 4 if run.tier == "quick" else 40
     cfgs = [c for c in configs(run.rng, run.tier)
             if c["method"] == "leastsq" and not c["expr"]
-            and c["segment"] == 0][:n]
+            and c["segment"] == 0
+            # (the E(delta) scan reads the parameter named E: not defined for
+            # the layered model, see the C19/C20 finding)
+            and not c["model_key"].startswith("power_layer")][:n]
     for cfg in cfgs:
         cfg = dict(cfg, history="scan-after-fit")
         key = "hist:" + common.sha(cfg)[:16]
@@ -287,6 +290,54 @@ def analysis_history_cases(run):
                         "although no fit setting changed",
                         payload={"kind": "rerun"}, theorem="C04 (fit column)")
         oracle(run, cfg, idnt, calls, p0, fixed)
+
+
+def weights_history_cases(run):
+    """fits in a row that share contact point (held fixed), weighting
+    distance and number of points but not the abscissa (another correction
+    factor, another curve of equal length): the weights of every fit are the
+    ramp on ITS abscissa"""
+    from nanite import model
+    n = 2 if run.tier == "quick" else 10
+    for t in range(n):
+        mk = ["hertz_para", "hertz_cone"][t % 2]
+        true = fits.default_params(mk, contact_point=0.0,
+                                   baseline=1e-11 * (t + 1))
+        ekey = "E"
+        true[ekey] = 2000.0 * (t + 1)
+        curves_ = [fits.model_curve(mk, true, n_app=120, n_ret=60,
+                                    noise=1e-11,
+                                    rng=np.random.default_rng(500 + t)),
+                   fits.model_curve(mk, dict(true, E=true[ekey] * 3), n_app=120,
+                                    n_ret=60, noise=1e-11, z0=5e-6,
+                                    rng=np.random.default_rng(600 + t))]
+        plan = [(0, 1.0), (0, 0.5), (0, 2.0), (1, 2.0), (1, 0.5)]
+        idnts = {}
+        for which, k in plan:
+            cfg = {"model_key": mk, "segment": 0, "range_x": [0, 0],
+                   "weight_cp": 1e-6, "gcf_k": k, "method": "leastsq",
+                   "noise": 1e-11, "fix": "contact_point", "expr": False,
+                   "cp_true": 0.0, "E_true": true[ekey], "bl_true": 0.0,
+                   "seed": 500 + t, "history": f"weights:{which}:{k}"}
+            key = "hist:" + common.sha(cfg)[:16]
+            run.case(cfg, kind="weights-history")
+            try:
+                if which not in idnts:
+                    idnts[which] = curves.make_indentation(curves_[which])
+                idnt = idnts[which]
+                p = model.models_available[mk].get_parameter_defaults()
+                p["contact_point"].set(value=0.0, vary=False)
+                p[ekey].set(value=true[ekey] * 1.5)
+                with fits.MinimizeCapture() as cap:
+                    idnt.fit_model(model_key=mk, params_initial=p, segment=0,
+                                   range_x=[0, 0], weight_cp=1e-6, gcf_k=k,
+                                   method="leastsq")
+                if cap.calls:
+                    oracle(run, cfg, idnt, cap.calls, p,
+                           {"contact_point": 0.0})
+            except BaseException as e:
+                run.failing(SITE, key, f"{cfg}: raised {type(e).__name__}: "
+                            f"{e}", payload={"kind": "rerun"})
 
 
 def check(run):
@@ -340,6 +391,7 @@ def check(run):
     unsuccessful_cases(run)
     bounds_history_cases(run)
     analysis_history_cases(run)
+    weights_history_cases(run)
     for kf in run.known:
         if kf.get("status") == "fixed":
             run.fixed_must_pass(kf["id"], not any(
